@@ -115,11 +115,19 @@ impl Expr {
                 ExprNode::Div => {
                     let rhs = stack.pop().unwrap();
                     let lhs = stack.pop().unwrap();
+                    if rhs == 0 {
+                        // division by zero cannot be solved
+                        return None;
+                    }
                     stack.push(lhs.wrapping_div(rhs));
                 }
                 ExprNode::Rem => {
                     let rhs = stack.pop().unwrap();
                     let lhs = stack.pop().unwrap();
+                    if rhs == 0 {
+                        // remainder by zero cannot be solved
+                        return None;
+                    }
                     stack.push(lhs.wrapping_rem(rhs));
                 }
                 ExprNode::ShiftLeft => {
